@@ -71,6 +71,7 @@ def run(tier):
                       scripts=K.random_scripts(seed + 9, 300 if th else 60, 24, None, w_pre)))
     K.conform(ck, plans)
     K.l2_client(ck, th, seed)
+    K.l2_client_poll(ck, th, seed)
     ck.cov['rule'] = ('case = one scripted-server script (replies, failures, frames, clock) with '
                       'application calls, on one client implementation; distinct by recorded action '
                       'sequence')
